@@ -267,7 +267,50 @@ fn many_rules(args: &Args, rep: &mut Report) {
     }
 }
 
+
+/// String-level source: token-mutated sample lines and rendered sentences that still parse (they
+/// reach parsed values the AST generator does not build); original vs normalized, evaluated.
+fn mutated_strings(args: &Args, rep: &mut Report) {
+    let samples = super::c04::sample_lines();
+    let n = args.cases(30_000, 500_000);
+    for k in 0..n {
+        if rep.full() || samples.is_empty() {
+            return;
+        }
+        let mut r = Rng::new(args.seed ^ 0x6d76, args.worker, k);
+        let base = if k % 2 == 0 {
+            samples[r.below(samples.len() as u64) as usize].clone()
+        } else {
+            let cfg = canonical_cfg(false, k);
+            let ast = expr::gen_expr(&mut r, &cfg);
+            let mut v = render::Variants::random(Rng::new(args.seed ^ 11, args.worker, k));
+            render::expr(&mut v, &ast)
+        };
+        let text = super::c04::mutate(&mut r, &base);
+        let Ok(ast) = lib_parse(&text) else {
+            rep.count("mutated_strings_rejected_by_parser");
+            continue;
+        };
+        rep.evaluations += 1;
+        rep.begin(&text);
+        match check(&text, &ast, &HolSpec::None, &mut r, 0) {
+            Ok(_) => {
+                rep.count("mutated_strings_compared");
+                rep.nontrivial(crate::rng::hash64(&text));
+            }
+            Err(msg) => match known::explained_by(&args.known, &ast) {
+                Some(t) => rep.violation("normalization_changes_meaning", format!("{text:?} [none]: {msg}"), json!({"expr": text, "holidays": "none"}), Some(t)),
+                None => rep.violation("normalization_changes_meaning", format!("{text:?} [none]: {msg}"), json!({"expr": text, "holidays": "none"}), None),
+            },
+        }
+    }
+}
+
 pub fn run(args: &Args, rep: &mut Report) {
+    mutated_strings(args, rep);
+    if rep.full() {
+        return;
+    }
     many_rules(args, rep);
     if rep.full() {
         return;
